@@ -44,6 +44,9 @@ CORPUS = [
     ("(Red,Blue),(Green),(Blue,Red)", "(Green),(Red,Blue),(Blue,Red)", "order"),
     ("Label/ABC, Label/Abd, Label/abc", "Label/ABC, Label/abc, Label/Abd", "order"),
     ("Label/ABC, Informational-property/Label/abc", "Label/ABC, Label/abc", "spelling"),
+    ("(Duration/3 s, (Red)), (Blue, (Duration/3 s, (Red)))", "(Duration/3 s, (Red)), (Blue, ((Red), Duration/3 s))", "order"),
+    ("(Onset, Def/Mydef, (Red)), (Blue, (Green, (Onset, Def/Mydef, (Red))))",
+     "(Onset, Def/Mydef, (Red)), (Blue, (Green, (Def/Mydef, (Red), Onset)))", "order"),
     ("(),()", "() , ()", "spacing"),
     ("((())),((()))", "((())),((()))", "spacing"),
     ("Red,(Blue,(Green,(Red,Blue))),(((Blue,Red),Green),Blue)", "(((Red,Blue),Green),Blue),Red,(Blue,(Green,(Blue,Red)))", "order"),
@@ -69,11 +72,23 @@ def install_recorder():
     ErrorHandler._verif_c04 = True
 
 
+DEFS = "(Definition/Mydef, (Red)), (Definition/Myval/#, (Label/#))"
+_DD = {}
+
+
+def def_dict(schema):
+    """a small DefinitionDict so that `Def/Mydef`, `Def/Myval/3` in temporal groups are valid"""
+    if id(schema) not in _DD:
+        from hed.models import DefinitionDict
+        _DD[id(schema)] = DefinitionDict(DEFS, schema)
+    return _DD[id(schema)]
+
+
 def codes_of(text, schema):
     """sorted error-severity codes, or ('RAISED', type) — the observable of the property"""
     from hed import HedString
     try:
-        issues = HedString(text, schema).validate()
+        issues = HedString(text, schema, def_dict(schema)).validate()
     except Exception as e:   # noqa: BLE001 — any exception is an outcome here
         return ["RAISED:" + type(e).__name__]
     return sorted(i["code"] for i in issues if i["severity"] == ERROR)
@@ -244,7 +259,100 @@ def gen_annotation(rng, v):
         top.insert(rng.randrange(len(top) + 1), grp)
         if rng.random() < 0.4:
             top.insert(rng.randrange(len(top) + 1), ("g", [("t", comps, tail), ("t", rng.choice(v.plain), "")]))
+    r = rng.random()
+    if r < 0.2:      # a top-level-only group at top level and a copy of it nested
+        plant_top_level_copies(rng, v, top)
+    elif r < 0.45:   # any group, copied to another depth
+        duplicate_subtree(rng, top)
     return top
+
+
+SP = {c[-1]: c for c, _ in SPECIAL}
+
+
+def gen_top_level_group(rng, v):
+    """a group led by a top-level-only tag (valid where it stands at top level, an error when nested)"""
+    def small():
+        return ("t", rng.choice(POOL_SMALL), "")
+    inner = ("g", [small()] + ([("t", rng.choice(v.plain), "")] if rng.random() < 0.5 else []))
+    dname = rng.choice(["/Mydef", "/Mydef", "/Myval/3", "/Myval/abc"])
+    k = rng.randrange(9)
+    if k == 0:
+        kids = [("t", SP["Duration"], "/3 s"), inner]
+    elif k == 1:
+        kids = [("t", SP["Delay"], "/1 s"), inner]
+    elif k == 2:
+        kids = [("t", SP["Duration"], "/2 s"), ("t", SP["Delay"], "/1 s"), inner]
+    elif k == 3:
+        kids = [("t", SP["Onset"], ""), ("t", SP["Def"], dname)] + ([inner] if rng.random() < 0.6 else [])
+    elif k == 4:
+        kids = [("t", SP["Offset"], ""), ("t", SP["Def"], dname)]
+    elif k == 5:
+        kids = [("t", SP["Inset"], ""), ("t", SP["Def"], dname), inner]
+    elif k == 6:
+        kids = [("t", SP["Definition"], "/Newdef"), inner]
+    elif k == 7:
+        kids = [("t", SP["Event-context"], ""), small(), ("t", rng.choice(v.plain), "")]
+    else:
+        kids = [("t", SP["Delay"], "/1 s"), ("t", SP["Onset"], ""), ("t", SP["Def"], dname), inner]
+    return ("g", kids)
+
+
+def plant_top_level_copies(rng, v, top):
+    """the same group once at top level (mark A) and once nested at depth >= 2 (mark B)"""
+    import copy
+    g = gen_top_level_group(rng, v)
+    a = ("g", g[1], "A")
+    w = ("g", copy.deepcopy(g[1]), "B")
+    for _ in range(rng.choice([1, 1, 2])):
+        filler = [("t", rng.choice(POOL_SMALL + [rng.choice(v.plain)]), "") for _ in range(rng.choice([0, 1, 1, 2]))]
+        kids = filler + [w]
+        rng.shuffle(kids)
+        w = ("g", kids)
+    top.insert(rng.randrange(len(top) + 1), a)
+    top.insert(rng.randrange(len(top) + 1), w)
+
+
+def group_paths(nodes, p=()):
+    out = []
+    for i, n in enumerate(nodes):
+        if n[0] == "g":
+            out.append(p + (i,))
+            out += group_paths(n[1], p + (i,))
+    return out
+
+
+def node_at(nodes, path):
+    n = ("g", nodes)
+    for i in path:
+        n = n[1][i]
+    return n
+
+
+def duplicate_subtree(rng, top):
+    """copy a random group to another place at another depth; mark the original A and the copy B
+    (identity-versus-equality confusions only show with structurally equal subtrees)"""
+    import copy
+    paths = group_paths(top)
+    if not paths:
+        return False
+    src = rng.choice(paths)
+    dests = [p for p in [()] + paths if len(p) != len(src) - 1 and p[:len(src)] != src]
+    if not dests:
+        return False
+    dst = rng.choice(dests)
+    orig = node_at(top, src)
+    if len(orig) > 2:
+        return False
+    parent = node_at(top, src[:-1])[1]
+    parent[src[-1]] = ("g", orig[1], "A")
+    kids = node_at(top, dst)[1]          # the lists are shared with `top`, so this edits in place
+    kids.insert(rng.randrange(len(kids) + 1), ("g", copy.deepcopy(orig[1]), "B"))
+    return True
+
+
+def has_marks(nodes):
+    return any(n[0] == "g" and (len(n) > 2 or has_marks(n[1])) for n in nodes)
 
 
 def depth_of(nodes):
@@ -300,7 +408,26 @@ def permute_all(rng, node):
         return node
     kids = [permute_all(rng, c) for c in node[1]]
     rng.shuffle(kids)
-    return ("g", kids)
+    return ("g", kids) + node[2:]
+
+
+def permute_marked(rng, nodes, marks, deep=False):
+    """reorder (never the identity, if there are >= 2 members) the members of the groups marked with one of
+    `marks`, independently of each other; everything else stays as written"""
+    out = []
+    for n in nodes:
+        if n[0] != "g":
+            out.append(n)
+            continue
+        kids = permute_marked(rng, n[1], marks, deep)
+        if len(n) > 2 and n[2] in marks:
+            if deep:
+                kids = [permute_all(rng, c) for c in kids]
+            if len(kids) >= 2:
+                k = rng.randrange(1, len(kids) + 1)
+                kids = kids[::-1] if k == len(kids) else kids[k:] + kids[:k]
+        out.append(("g", kids) + n[2:])
+    return out
 
 
 def permute_one(rng, nodes):
@@ -320,7 +447,7 @@ def permute_one(rng, nodes):
             ks = list(ns)
             rng.shuffle(ks)
             return ks
-        return [("g", rebuild(n[1], p[1:])) if i == p[0] else n for i, n in enumerate(ns)]
+        return [("g", rebuild(n[1], p[1:])) + n[2:] if i == p[0] else n for i, n in enumerate(ns)]
     return rebuild(nodes, target)
 
 
@@ -334,6 +461,14 @@ def rewrites(rng, top, n):
            ("respell+spacing", render(rng, top, respell=True, spacing="rand")),
            ("order+respell", render(rng, permute_all(rng, ("g", top))[1], respell=True)),
            ("order+respell+spacing", render(rng, permute_all(rng, ("g", top))[1], respell=True, spacing="rand"))]
+    if has_marks(top):   # structurally equal subtrees: rewrite the copies independently of each other
+        deep = rng.random() < 0.5
+        out += [("order-nested-copy", render(rng, permute_marked(rng, top, "B", deep))),
+                ("order-first-copy", render(rng, permute_marked(rng, top, "A", deep))),
+                ("order-both-copies", render(rng, permute_marked(rng, top, "AB", deep))),
+                ("order-one-copy+respell+spacing", render(rng, permute_marked(rng, top, rng.choice("AB"), deep),
+                                                          respell=True, spacing="rand"))]
+        n += 4
     kinds = ["respell", "spacing", "order", "all"]
     while len(out) < n:
         k = rng.choice(kinds)
@@ -498,7 +633,8 @@ def run(ctx):
     rng = ctx.rng
     ctx.extra["rule"] = ("annotations over HED 8.3.0 built from an abstract tree (vocabulary tags from the independently read XML, "
                          "value/extension tails, unknown/empty tags, empty groups, placement-rule tags; depth <= 4; deliberate repeated "
-                         "siblings with permuted members) and rewrites of them (respelled names, blanks around delimiters, permuted "
+                         "siblings with permuted members; in ~45% a group — in ~20% one led by a top-level-only tag: Duration/Delay/Onset/Offset/Inset+Def/"
+                         "Definition/Event-context — is copied to another depth and the copies are rewritten independently) and rewrites of them (respelled names, blanks around delimiters, permuted "
                          "siblings, combinations); duplicate-rule trees over a 10-tag pool in all top-level permutations; "
                          "delimiter/blank strings (exhaustive to length 4/5 + random). Non-trivial = the base annotation has at "
                          "least one error code / at least one duplicate issue / at least one delimiter issue")
@@ -516,6 +652,8 @@ def run(ctx):
             ctx.count("base-code:" + c)
         ctx.count("base-depth-%d" % depth_of(top))
         ctx.count("base-errors-%s" % (len(c0) if len(c0) < 3 else "3+"))
+        if has_marks(top):
+            ctx.count("base-with-copied-subtree")
         ctx.case(("rel", base), nontrivial=bool(c0),
                  sample={"base": base, "codes": c0} if c0 and len(base) < 90 else None)
         for kind, text in rewrites(rng, top, nrw):
